@@ -333,7 +333,20 @@ def string_line_rules(ctx, fv, then, loop, fmts):
         while t[0] == "call" and len(t) == 3 and t[1].split("::")[-1] in ("to_string", "to_owned", "from", "into"):
             t = t[2]
         return t[1] if t[0] == "lit" and isinstance(t[1], str) else None
-    ok_id = init[0] == "field" and init[2] == "id" and contains(init, lambda s_: s_[0] == "call" and s_[1].endswith("Iterator::next"))
+    def is_id(t_):
+        while t_[0] == "call" and len(t_) == 3 and t_[1].split("::")[-1] in ("as_str", "deref", "as_ref", "clone", "to_owned", "to_string", "borrow"):
+            t_ = t_[2]
+        return t_[0] == "field" and t_[2] == "id" and contains(t_, lambda s_: s_[0] == "call" and s_[1].endswith("Iterator::next"))
+    ok_id = is_id(init)
+    if not ok_id and init[0] == "call" and init[1].split("::")[-1] in ("new", "with_capacity") and "String" in init[1]:
+        # a per-worker buffer reused for every record: `line.clear(); line.push_str(&record.id); ..`
+        clears = [n for n in walk(then) if n.get("k") == "mcall" and n["recv"].get("k") == "local" and n["recv"].get("id") == lid
+                  and cname(n).split("::")[-1] == "clear"]
+        order_ = {id(x): i for i, x in enumerate(walk(then))}
+        if len(clears) == 1 and apps_out and is_id(apps_out[0][1]) and order_[id(clears[0])] < order_[id(apps_out[0][0])] \
+                and not fv.guards_within(clears[0], then):
+            ok_id = True
+            apps_out = apps_out[1:]
     ok_tail = len(apps_out) == 1 and lit(apps_out[0][1]) == "\t\n"
     ok_run = len(apps_in) == 2 and lit(apps_in[0][1]) == "\t" and fmts and apps_in[1][1] == fmts[0][1]
     if not ok_run:
